@@ -10,7 +10,7 @@ ID = "C14"
 RULE = (
     "case = (font with component DAG, anchors, closed line/cubic contours; a second font of the same structure with different coordinates and different "
     "capHeight/xHeight) x filter in {CubicToQuadratic, DecomposeComponents, DecomposeTransformedComponents, FlattenComponents, PropagateAnchors, "
-    "RemoveOverlaps (both backends), ReverseContourDirection, SortContours, Transformations (with Origin), SkipExportGlyphs} or interpolatable variant "
+    "RemoveOverlaps (both backends), ReverseContourDirection, SortContours, Transformations (with Origin), SkipExportGlyphs, DottedCircle (font with or without a U+25CC glyph)} or interpolatable variant "
     "(Decompose, DecomposeTransformed, Flatten, PropagateAnchors, SkipExportGlyphs IFilters on both fonts as masters) x include list (also empty) / exclude "
     "list / all x {copied glyph set, in place} x {ufoLib2, defcon}; history = the same filter object is run on font A, then on font B; oracle = glyph "
     "snapshots before/after: (1) only included glyphs, glyphs reachable from them as components and the filter's declared targets change, (2) every changed / "
@@ -21,12 +21,13 @@ RULE = (
 )
 ASSUMPTIONS = [
     "booleanOperations rejects open and quadratic contours (documented UnsupportedContourError): generator uses closed line/cubic contours; filter exceptions of documented types are counted, not violations",
-    "DottedCircle and ExplodeColorLayerGlyphs write to the source font by design of their ensure/explode steps (shared with the C07 findings) and are not part of this generator",
+    "ExplodeColorLayerGlyphs, and DottedCircle on fonts with public.openTypeCategories or a GDEF table in the features, write to the source font (lib, feature text, colour layers): the open C07 findings KF-C07-2/3; "
+    "this generator runs DottedCircle only on fonts without either, where its effect is confined to the glyph set",
 ]
 N = {"quick": (8, 120), "thorough": (16, 1200)}
 FLOORS = {"include-strict-subset": 0.087, "include-empty-list": 0.02, "interpolatable": 0.048, "some-glyph-changed": 0.197}  # a third of the measured frequency: a starving generator is a harness error, sampling noise is not
 
-PLAIN = ["cu2qu", "decompose", "decomposeT", "flatten", "propagate", "overlap", "overlap-skia", "reverse", "sort", "transform", "skip"]
+PLAIN = ["cu2qu", "decompose", "decomposeT", "flatten", "propagate", "overlap", "overlap-skia", "reverse", "sort", "transform", "skip", "dotted"]
 INTERP = ["decompose", "decomposeT", "flatten", "propagate", "skip"]
 
 
@@ -48,7 +49,7 @@ def _case(draw):
         g["anchors"] = [{"name": k, "x": 10.5 * i, "y": draw(st.integers(0, 800))} for k in ks]
     spec["info"].update({"capHeight": 700, "xHeight": 500})
     interp = draw(st.sampled_from([False, False, False, True]))
-    which = draw(st.sampled_from(INTERP if interp else PLAIN))
+    which = draw(st.sampled_from(INTERP if interp else PLAIN + ["dotted"]))
     fopts = {}
     if which == "transform":
         fopts = {"OffsetX": draw(st.sampled_from([0, 10])), "ScaleY": draw(st.sampled_from([100, 120])), "Slant": draw(st.sampled_from([0, 5])), "Origin": draw(st.integers(0, 4))}
@@ -58,7 +59,22 @@ def _case(draw):
         fopts = {"reverseDirection": draw(st.booleans())}
     elif which == "skip":
         fopts = {"skipExportGlyphs": draw(st.lists(st.sampled_from(names), unique=True, min_size=1, max_size=2))}
-    incmode = draw(st.sampled_from(["all", "include", "include", "exclude"])) if which != "skip" else "all"
+    elif which == "dotted":
+        # no categories in the lib and no GDEF table in the features: the filter's documented effect is then confined to the glyph set
+        # (with either, it also rewrites lib / feature text - the C07 finding KF-C07-3, outside this generator)
+        fopts = {"margin": draw(st.sampled_from([80, 40])), "dots": draw(st.sampled_from([12, 8]))}
+        if draw(st.booleans()):
+            g = draw(st.sampled_from([h for h in spec["glyphs"] if h.get("contours")] or spec["glyphs"]))
+            g["unicodes"] = [0x25CC]
+            g["width"] = g["width"] or 500
+            if draw(st.booleans()) and len(spec["glyphs"]) >= 3:
+                # the existing dotted circle lacks an anchor that marks attach to: the filter has to add it (to the glyph set's glyph)
+                others = [h for h in spec["glyphs"] if h is not g]
+                g["anchors"] = [a for a in g["anchors"] if a["name"] != "top"]
+                others[0]["anchors"] = [a for a in others[0]["anchors"] if a["name"] != "_top"] + [{"name": "_top", "x": 3, "y": 400}]
+                others[1]["anchors"] = [a for a in others[1]["anchors"] if a["name"] != "top"] + [{"name": "top", "x": 120, "y": 650}]
+                others[1]["width"] = others[1]["width"] or 480
+    incmode = draw(st.sampled_from(["all", "include", "include", "exclude"])) if which not in ("skip", "dotted") else "all"
     incnames = draw(st.lists(st.sampled_from(names), unique=True, min_size=0 if incmode == "include" else 1, max_size=3)) if incmode != "all" else []
     return {
         "spec": spec,
@@ -94,6 +110,7 @@ def make_filter(case):
         "cu2qu": FL.CubicToQuadraticFilter, "decompose": FL.DecomposeComponentsFilter, "decomposeT": FL.DecomposeTransformedComponentsFilter,
         "flatten": FL.FlattenComponentsFilter, "propagate": FL.PropagateAnchorsFilter, "overlap": FL.RemoveOverlapsFilter, "overlap-skia": FL.RemoveOverlapsFilter,
         "reverse": FL.ReverseContourDirectionFilter, "sort": FL.SortContoursFilter, "transform": FL.TransformationsFilter, "skip": FL.SkipExportGlyphsFilter,
+        "dotted": FL.DottedCircleFilter,
     }[which]
     if which == "overlap-skia":
         kw["backend"] = "pathops"
@@ -184,6 +201,14 @@ def check_scope(case, before, after, mod, names_all):
     else:
         included = set(names)
     targets = set(case["fopts"].get("skipExportGlyphs", [])) if which == "skip" else set()
+    if which == "dotted":
+        # the one glyph the filter is about: the existing U+25CC glyph, or the uni25CC it draws
+        allowed_dc = {n for n, g in before.items() if 0x25CC in g.get("unicodes", [])} | {"uni25CC"}
+        changed = {n for n in set(after) | set(before) if after.get(n) != before.get(n)}
+        if not changed <= allowed_dc:
+            raise Violation("DottedCircle filter changed glyphs other than the dotted circle", outside=sorted(changed - allowed_dc))
+        targets = allowed_dc
+        included = set()
     allowed = reach(before, included) | targets
     changed = {n for n in set(after) | set(before) if after.get(n) != before.get(n)}
     if not changed <= allowed:
@@ -287,5 +312,5 @@ MANIFEST = {
     "text": "Generated fonts, filters and include/exclude specifications; glyph snapshots before/after decide scope and reporting; the same filter object is invoked "
     "on a second, different font and on an equal copy of the first and compared with fresh objects; interpolatable variants are compared with the plain filter "
     "per master. Counterexample search only.",
-    "note": "DottedCircle and colour-layer filters are excluded (they write to the source font by construction, see the C07 findings). Documented outline rejections are discarded and counted.",
+    "note": "The colour-layer filter, and DottedCircle on fonts with categories / a GDEF feature table, are excluded (they write to the source font, see the C07 findings KF-C07-2/3). Documented outline rejections are discarded and counted.",
 }
